@@ -2022,10 +2022,14 @@ class FileIterator(FileStorageFormatter):
             try:
                 h = self._read_txn_header(pos)
             except CorruptedDataError as err:
-                # If buf is empty, we've reached EOF.
-                if not err.buf:
-                    break
-                raise
+                # If buf is empty, we've reached EOF.  A shorter header
+                # is the beginning of a transaction that was being
+                # written: the end of the database, as for read_index().
+                if err.buf:
+                    logger.warning("%s truncated, possibly due to"
+                                   " damaged records at %s",
+                                   self._file.name, pos)
+                break
 
             if h.tid <= self._ltid:
                 logger.warning("%s time-stamp reduction at %s",
